@@ -405,3 +405,53 @@ func lossySteps(v ssa.Value, seen map[ssa.Value]bool, depth int) []string {
 	}
 	return out
 }
+
+// c19FileNames (R19.m): the name of every file the publisher sends is the result of a Page* function - the same
+// functions every link goes through, so a page is written under the name its links point to.
+func c19FileNames(p *load.Prog, r *oblig.Run) {
+	r.Rule("R19.m", "every published file is named by the Page* function its links use", 6)
+	newFile := p.Func(load.PkgCore, "NewFile")
+	if newFile == nil {
+		r.Add("R19.m", "anchor", "-", "anchor").Unknown("core.NewFile not found")
+		return
+	}
+	sp := p.SSAPkg[load.PkgHTML]
+	n := 0
+	for _, m := range sp.Members {
+		t, ok := m.(*ssa.Type)
+		if !ok || t.Name() != "Publisher" {
+			continue
+		}
+		ms := p.SSA.MethodSets.MethodSet(types.NewPointer(t.Type()))
+		for i := 0; i < ms.Len(); i++ {
+			fn := p.SSA.MethodValue(ms.At(i))
+			if fn == nil || len(fn.Blocks) == 0 {
+				continue
+			}
+			for _, c := range su.CallsTo(fn, newFile) {
+				n++
+				key := fmt.Sprintf("file %d sent by %s", n, fn.Name())
+				name := c.Call.Args[0]
+				// through a local variable
+				for d := 0; d < 3; d++ {
+					if ph, isPhi := name.(*ssa.Phi); isPhi && len(ph.Edges) == 1 {
+						name = ph.Edges[0]
+						continue
+					}
+					break
+				}
+				pc, isCall := name.(*ssa.Call)
+				good := false
+				if isCall {
+					cal := pc.Call.StaticCallee()
+					good = cal != nil && cal.Pkg != nil && cal.Pkg.Pkg.Path() == load.PkgHTML && strings.HasPrefix(cal.Name(), "Page") && cal.Signature.Recv() == nil
+				}
+				r.Check("R19.m", key, p.Pos(c.Pos()), "origin of the file name", good, "the result of a Page* function",
+					"the file sent at "+p.Pos(c.Pos())+" is not named by a Page* function ("+name.String()+"): links to the page are built with the Page* function, so when the two disagree (a key computed at another time, with another place map) the page is written under one name and linked under another")
+			}
+		}
+	}
+	if n == 0 {
+		r.Add("R19.m", "files", "-", "files sent by the publisher").Unknown("no call of core.NewFile in the methods of Publisher")
+	}
+}
